@@ -11,7 +11,8 @@ Inductive rawword :=
 | RU (n : N)        (* write_usize *)
 | RW (n : N)        (* write_u32 *)
 | RB (h : bytes)    (* write(&[u8]) *)
-| RK (k : key).     (* the calls made by the key's own Hash impl (opaque) *)
+| RK (k : key)      (* the calls made by the key's own Hash impl (opaque) *)
+| RC (n : N).       (* write_u8 (the depth of a tap leaf) *)
 
 Definition raw_of_hword (w : hword) : list rawword :=
   match w with
@@ -27,7 +28,7 @@ Definition hash_raw (m : ms) : list rawword := flat_map raw_of_hword (hash_iter 
 
 Definition rawword_eqb (a b : rawword) : bool :=
   match a, b with
-  | RI x, RI y | RU x, RU y | RW x, RW y | RK x, RK y => N.eqb x y
+  | RI x, RI y | RU x, RU y | RW x, RW y | RK x, RK y | RC x, RC y => N.eqb x y
   | RB x, RB y => bytes_eqb x y
   | _, _ => false
   end.
